@@ -256,11 +256,26 @@ def _run_own(ck):
                       'the diagram scalar is %s here (`%s`): the scalar contributions of all earlier gates are lost / altered; a gate may only multiply its factor in' % ('overwritten' if kind == 'overwrite' else 'updated non-multiplicatively', text))
     ck.floor('R-SCALAR-mul', nsw, 8)
     # ---- D2
+    # (round 2) the slot bookkeeping of the arms that remove a wire, decided by evaluation on all six qubit -> slot maps of three wires
+    from .C10 import slot_shift_semantics
+    from .. import minirust as _mr
+    shift_decided = True
+    for kind in ('PostSelect', 'Measure', 'MeasureReset'):
+        try:
+            okv, detail, nev = slot_shift_semantics(facts, kind)
+            ck.ob('R-SIB', '%s/index-shift-by-evaluation' % kind, okv, ck.site(ATG), detail, sample={'evaluations': nev})
+        except (_mr.NoEval, _mr.Proceed, TypeError, KeyError, IndexError, AttributeError, ValueError) as ex:
+            shift_decided = False
+            ck.note('%s: the slot bookkeeping is not evaluable (%s); syntactic reading used, positive matches only' % (kind, ex))
     a = shift_block(arms['PostSelect']['body'])
     b = shift_block(arms['Measure']['body'])
+    if shift_decided:
+        ck.positive_only = dict(getattr(ck, 'positive_only', {}), **{'R-SIB': 'the slot bookkeeping was decided by evaluation in this run'})
     ck.ob3('R-SIB', 'PostSelect~Measure/index-shift', None if (len(a) < 3 and len(b) < 3) else (a == b and len(a) >= 3), ck.site(ATG), 'the post-selection and measurement arms must perform the same remove-output / forget-qubit / shift block: %s vs %s' % (a, b), sample={'block': a})
     want_shift = ['outputs.remove(SLOT)', 'qs.remove(&self.qs[0])', 'for each entry e of the map: if e > SLOT { (*v1 -= 1) }']
     ck.ob3('R-SIB', 'PostSelect/index-shift-keyed-by-slot', None if len(a) < 3 else (any('> SLOT' in x for x in a) and 'outputs.remove(SLOT)' in a), ck.site(ATG), 'entries above the removed output SLOT must shift down by one: %s' % a)
+    if getattr(ck, 'positive_only', None):
+        ck.positive_only.pop('R-SIB', None)
     f = ck.fn(TGO)
     d = finalisation(f)
     if d is None:
